@@ -20,10 +20,14 @@ import (
 	"time"
 
 	"github.com/ozontech/seq-db/conf"
+	"github.com/ozontech/seq-db/disk"
 	"github.com/ozontech/seq-db/frac"
 	"github.com/ozontech/seq-db/frac/processor"
 	"github.com/ozontech/seq-db/fracmanager"
+	"github.com/ozontech/seq-db/mappingprovider"
+	pbapi "github.com/ozontech/seq-db/pkg/storeapi"
 	"github.com/ozontech/seq-db/seq"
+	sapi "github.com/ozontech/seq-db/storeapi"
 	"github.com/ozontech/seq-db/verifhook"
 
 	"verifharness/internal/vh"
@@ -279,6 +283,186 @@ func fsyncChild(seed int64, dir string) (out raceOut) {
 				break
 			}
 		}
+	}
+	out.Fractions = len(fm.GetAllFracs())
+	fm.Stop()
+	return
+}
+
+// bigFetchChild: one fetch request through the real storeapi GrpcV1.Fetch stream (in-memory client) with more than one
+// id batch (> 1000 ids) over three fractions, the oldest fraction's ids last: every acknowledged id must come back with
+// exactly its bytes.  The request is repeated while another fraction is rotated out and sealed.
+func bigFetchChild(seed int64, dir string) (out raceOut) {
+	add := func(class, what string) {
+		if len(out.Findings) < 10 {
+			out.Findings = append(out.Findings, finding2{class, what})
+		}
+	}
+	fm, err := newPlainFM(dir)
+	if err != nil {
+		add("harness", err.Error())
+		return
+	}
+	mp, err := mappingprovider.New("", mappingprovider.WithMapping(seq.TestMapping))
+	if err != nil {
+		add("harness", err.Error())
+		return
+	}
+	client := sapi.VerifC07InMemoryClient(fm, mp, dir+"/async")
+	rng := vh.NewRNG(seed)
+	var perFrac [][]doc
+	total := 0
+	nfr := 3
+	for fr := 0; fr < nfr; fr++ {
+		var mine []doc
+		for k := 0; k < 6; k++ {
+			var ds []doc
+			for j := 0; j < 90+rng.Intn(10); j++ {
+				ds = append(ds, mkDoc(fr*10+k, j, uint64(10000*(fr+1)+k*100+j), uint64(fr*1000000+k*1000+j+1), []int{0}))
+			}
+			b := mkBulk(ds)
+			if err := fm.Append(context.Background(), b.docsB, b.metaB); err != nil {
+				add("append-error", err.Error())
+				return
+			}
+			mine = append(mine, ds...)
+			out.Bulks++
+		}
+		total += len(mine)
+		perFrac = append(perFrac, mine)
+		fm.WaitIdle()
+		if fr < nfr-1 {
+			fm.SealForcedForTests()
+		}
+	}
+	waitIndexed(fm, total)
+	out.Fractions = len(fm.GetAllFracs())
+	fetchAll := func(when string) {
+		var want []doc
+		for fr := nfr - 1; fr >= 0; fr-- { // newest fraction first, the oldest fraction's ids last
+			want = append(want, perFrac[fr]...)
+		}
+		req := &pbapi.FetchRequest{}
+		for _, d := range want {
+			req.Ids = append(req.Ids, d.id().String())
+		}
+		stream, err := client.Fetch(context.Background(), req)
+		out.Fetches++
+		if err != nil {
+			add("fetch-error", fmt.Sprintf("%s: fetch of %d ids through the store API: %v", when, len(want), err))
+			return
+		}
+		for i, d := range want {
+			msg, err := stream.Recv()
+			if err != nil {
+				add("fetch-error", fmt.Sprintf("%s: stream ended after %d of %d documents: %v", when, i, len(want), err))
+				return
+			}
+			block := disk.DocBlock(msg.Data)
+			if block.GetExt1() != d.mid || block.GetExt2() != d.rid || string(block.Payload()) != string(d.body) {
+				add("fetch-multi-batch", fmt.Sprintf("%s: document %d of %d (%s, fraction %d of 3) of one store-API fetch request came back empty or foreign (%d bytes)",
+					when, i+1, len(want), d.idStr(), int(d.mid/10000), len(block.Payload())))
+				return
+			}
+		}
+	}
+	fetchAll("three fractions, writers idle")
+	// the same request while the third fraction is rotated out and sealed
+	var wg sync.WaitGroup
+	wg.Add(1)
+	go func() { defer wg.Done(); fm.SealForcedForTests() }()
+	for i := 0; i < 3 && len(out.Findings) == 0; i++ {
+		fetchAll("during rotate+seal of the third fraction")
+	}
+	wg.Wait()
+	fetchAll("all fractions sealed")
+	fm.Stop()
+	return
+}
+
+// lateDocsChild: sparse LATE documents (much older than the fraction, so that sealing builds a minute distribution
+// aligned to the oldest timestamp), among them pairs inside one wall-clock minute on both sides of a bucket boundary.
+// Every acknowledged document must be found by a narrow-range search and fetched by its bare id, before the fraction
+// is sealed, while it is rotated out, and after.
+func lateDocsChild(seed int64, dir string) (out raceOut) {
+	add := func(class, what string) {
+		if len(out.Findings) < 10 {
+			out.Findings = append(out.Findings, finding2{class, what})
+		}
+	}
+	fm, err := newPlainFM(dir)
+	if err != nil {
+		add("harness", err.Error())
+		return
+	}
+	rng := vh.NewRNG(seed)
+	const minute = 60000
+	base := uint64(time.Now().Add(-3*time.Hour).UnixMilli())/minute*minute + uint64(20000+rng.Intn(20000)) // oldest timestamp: not on a minute, inside the 24h the distribution covers
+	var mids []uint64
+	mids = append(mids, base)
+	for k := 2; k < 40; k += 3 + rng.Intn(3) {
+		boundary := base + uint64(k)*minute // a bucket boundary; base is 20-40 s into its wall-clock minute
+		wallStart := boundary / minute * minute
+		if boundary-wallStart < 2000 || wallStart+minute-boundary < 2000 {
+			continue
+		}
+		// two documents of ONE wall-clock minute, on both sides of the bucket boundary, nothing else near
+		mids = append(mids, boundary-uint64(1+rng.Intn(int(boundary-wallStart-1))), boundary+uint64(rng.Intn(int(wallStart+minute-boundary-1))))
+	}
+	var all []doc
+	searcher := fracmanager.NewSearcher(4, fracmanager.SearcherCfg{})
+	fetcher := fracmanager.NewFetcher(4)
+	checkAll := func(when string) {
+		for _, d := range all {
+			q, _, _ := parseQuery([]string{"T0"})
+			ast, _ := q.ast()
+			qpr, err := searcher.SearchDocs(context.Background(), fm.GetAllFracs(), processor.SearchParams{AST: ast, From: seq.MID(d.mid), To: seq.MID(d.mid), Limit: 100, Order: seq.DocsOrderDesc})
+			out.Searches++
+			if err != nil {
+				add("search-error", fmt.Sprintf("%s: %v", when, err))
+				return
+			}
+			found := false
+			for _, x := range qpr.IDs {
+				found = found || x.ID == d.id()
+			}
+			if !found {
+				add("late-doc-invisible", fmt.Sprintf("%s: acknowledged document %s is not returned by a search over exactly its millisecond", when, d.idStr()))
+				return
+			}
+			bodies, err := fetcher.FetchDocs(context.Background(), fm.GetAllFracs(), []seq.IDSource{{ID: d.id()}})
+			out.Fetches++
+			if err != nil || len(bodies) != 1 || string(bodies[0]) != string(d.body) {
+				add("late-doc-invisible", fmt.Sprintf("%s: acknowledged document %s, just returned by a search, cannot be fetched by its id (err=%v)", when, d.idStr(), err))
+				return
+			}
+		}
+	}
+	for i := 0; i < len(mids); i += 4 {
+		var ds []doc
+		for j, m := range mids[i:min(i+4, len(mids))] {
+			ds = append(ds, mkDoc(i, j, m, uint64(i*100+j+1), []int{0}))
+		}
+		b := mkBulk(ds)
+		if err := fm.Append(context.Background(), b.docsB, b.metaB); err != nil {
+			add("append-error", err.Error())
+			return
+		}
+		all = append(all, ds...)
+		out.Bulks++
+	}
+	fm.WaitIdle()
+	waitIndexed(fm, len(all))
+	checkAll("active fraction")
+	var wg sync.WaitGroup
+	wg.Add(1)
+	go func() { defer wg.Done(); fm.SealForcedForTests() }()
+	if len(out.Findings) == 0 {
+		checkAll("while the fraction is rotated out and sealed")
+	}
+	wg.Wait()
+	if len(out.Findings) == 0 {
+		checkAll("sealed fraction")
 	}
 	out.Fractions = len(fm.GetAllFracs())
 	fm.Stop()
